@@ -976,8 +976,9 @@ Qed.
 
 (* Full statement "every dense-allocation site of the anchored files is sanctioned",
      forallb sanctioned dense_sites = true,
-   is FALSE of the source as it stands: two sites allocate a product of extents inside a listed
-   operation family (GCXS reductions: findings G1; GCXS indexing: G2). *)
+   is FALSE of the source as it stands: three sites allocate or address a product of extents inside a
+   listed operation family (GCXS reductions: finding G1; GCXS indexing: G2; the scalar operand of an
+   element-wise operation viewed at the full logical shape: E1). *)
 Lemma dense_sites_sanctioned_refuted_proof :
   exists s, In s dense_sites /\ sanctioned s = false /\ product_site s = true.
 Proof.
@@ -992,7 +993,7 @@ Proof. vm_compute. reflexivity. Qed.
 
 Lemma product_sites_present_proof :
   forallb (fun a => existsb (fun s => site_matches s a) dense_sites) product_sites = true
-  /\ length (filter product_site dense_sites) = 2%nat.
+  /\ length (filter product_site dense_sites) = 3%nat.
 Proof. vm_compute. split; reflexivity. Qed.
 
 (* ================================================================= well-formed operands *)
